@@ -538,10 +538,14 @@ class Flow:
         elif isinstance(target, (ast.Subscript, ast.Attribute)):
             # a store target denotes a location: never distribute the index
             self.conv.no_distribute = True
+            fa = getattr(self.conv, 'forward_attrs', False)
+            if isinstance(target, ast.Attribute):
+                self.conv.forward_attrs = False     # the target names a location, not the value stored there before
             try:
                 trf = self.expr(target)
             finally:
                 self.conv.no_distribute = False
+                self.conv.forward_attrs = fa
             self.ev('store', node, target=trf, target_ast=target, op=op,
                     value=value_rf)
             d = dotted(target)
